@@ -39,16 +39,19 @@ Definition code_of {A} (o : outcome A) : option Z :=
 Definition opt_z_eqb (a b : option Z) : bool :=
   match a, b with Some x, Some y => x =? y | None, None => true | _, _ => false end.
 
-(** model verdict: [Some (code, max big alloc)] or [None] when not pinned down *)
+(** model verdict: [Some (code, max big alloc)] or [None] when not pinned down.  The two limits only
+    matter when one of them is hit: if the run with the SMALL limits ends without [StackOverflow]/[Hang]
+    the run with the large ones is identical and is not computed. *)
 Definition predict (bs : bytes) : option (Z * Z) :=
   let '(t1, o1) := load_binary E_lo bs in
-  let '(t2, o2) := load_binary E_hi bs in
-  match code_of o1, code_of o2 with
-  | Some c1, Some c2 =>
-      if c1 =? c2 then
-        let m := max_alloc t1 in Some (c1, if m <? big then 0 else m)
-      else None
-  | _, _ => None
+  let verdict (c : Z) := let m := max_alloc t1 in Some (c, if m <? big then 0 else m) in
+  match o1 with
+  | StackOverflow | Hang =>
+      match code_of o1, code_of (snd (load_binary E_hi bs)) with
+      | Some c1, Some c2 => if c1 =? c2 then verdict c1 else None
+      | _, _ => None
+      end
+  | _ => match code_of o1 with Some c => verdict c | None => None end
   end.
 
 (** observed codes 4 (timeout) and 5 (allocation failure) both count as the model's [Hang] when the
